@@ -252,6 +252,10 @@ def gen_shape(rng, d, allow_seq=True):
         return "leaf"
     if allow_seq and r < 0.42:
         return ("seq", gen_shape(rng, d - 1, allow_seq=False))
+    if allow_seq and r < 0.5:
+        # the first element of a sequence of packs: later stages project out of First(...)
+        inner = gen_shape(rng, d - 1, allow_seq=False)
+        return ("fst", inner if inner != "leaf" else ("tup", ["leaf", "leaf"]))
     n = rng.choice([1, 2, 2, 3])
     if r < 0.7:
         return ("tup", [gen_shape(rng, d - 1, allow_seq) for _ in range(n)])
@@ -268,6 +272,8 @@ def leaves(shape, path):
     kind, parts = shape
     if kind == "seq":
         return [(path, parts)]
+    if kind == "fst":
+        return leaves(parts, path)
     out = []
     if kind in ("tup", "lst"):
         for i, s in enumerate(parts):
@@ -314,6 +320,11 @@ def build(rng, shape, pool, seq_sources):
         y = rng.choice(["j", "n", "m"])
         src = rng.choice(seq_sources)
         return f"Select({src}, lambda {y}: {build(rng, parts, [(y, None)] + [(p, s) for p, s in pool if s is None], seq_sources)})"
+    if kind == "fst":
+        y = rng.choice(["j", "n", "m"])
+        src = rng.choice(seq_sources)
+        inner = build(rng, parts, [(y, None)] + [(p, s) for p, s in pool if s is None], seq_sources)
+        return f"First(Select({src}, lambda {y}: {inner}))"
     if kind == "tup":
         items = [build(rng, s, pool, seq_sources) for s in parts]
         return "(" + ", ".join(items) + ("," if len(items) == 1 else "") + ")"
